@@ -120,6 +120,22 @@ fn register_into(
     }
 }
 
+/// Register `ops` (one step of a longer sequence) on an existing builder; ids continue from `next_id`.
+pub fn register_ops_step(b: &mut Builder, ops: &[Op], next_id: &mut usize, path: &mut Vec<usize>, ctx: &Arc<Ctx>, calls: &mut Vec<Call>) {
+    // `register_into` pushes the op's index within `ops`; the caller has already pushed the real index
+    let real = path.pop();
+    let before = calls.len();
+    register_into(b, ops, next_id, path, ctx, calls, &None, None);
+    if let Some(r) = real {
+        for c in &mut calls[before..] {
+            if let Some(first) = c.path.get_mut(path.len()) {
+                *first = r;
+            }
+        }
+        path.push(r);
+    }
+}
+
 pub fn debug_text(b: &Builder) -> Result<String, String> {
     catch_unwind(AssertUnwindSafe(|| format!("{:?}", b))).map_err(|p| payload_str(&*p))
 }
